@@ -96,7 +96,15 @@ def check_model(path, strat, selftest=False):
     label = os.path.basename(path) + "/" + strat
     sd = biobalm.SuccessionDiagram.from_rules(text)
     names = list(sd.network.variable_names())
-    complete = STRATS[strat](sd)
+    try:
+        complete = STRATS[strat](sd)
+    except RuntimeError as e:
+        if "Exceeded the maximum" in str(e):
+            return {"complete": False, "queries": 0}, []       # a documented resource limit: nothing reported
+        return {"complete": True, "variables": len(names), "queries": 0}, [f"{label}: the strategy raised RuntimeError: {str(e)[:120]}"]
+    except Exception as e:
+        # a complete strategy with default settings must report completion, not crash (the library's own assertions included)
+        return {"complete": True, "variables": len(names), "queries": 0}, [f"{label}: the strategy raised {type(e).__name__}: {str(e)[:120]}"]
     if complete is not True:
         return {"complete": False, "queries": 0}, []          # stopped at its size limit: nothing reported as complete
     reported = [dict(sd.node_data(i)["space"]) for i in sd.minimal_trap_spaces()]
